@@ -103,7 +103,7 @@ Eval(g, S, fuel, D) ==
                             FlatSeq(SubstCl(g[4], (V(g[2]) :> g[3][i])))]), S, fuel, D)
     [] g[1] = "call" ->
          IF fuel = 0 THEN R(<<>>, TRUE)
-         ELSE LET def == IF g[2] \in DOMAIN D THEN D[g[2]] ELSE LibDef(g[2])
+         ELSE LET def == DefOf(g[2], D)
                   body == Unfold(def, g[3], S.next)
               IN Eval(body, [S EXCEPT !.next = @ + Len(def.locals)], fuel - 1, D)
     [] g[1] = "loop" ->    (* anyo: conde { g, anyo { g } } *)
